@@ -21,7 +21,7 @@ Render(c) == c.pre \o <<"CS">> \o c.w1 \o <<"=">> \o c.w2
 
 HClasses == {"tok", "UP", "dq", "sq", "bs", "semi", "eq", "comma", "sp", "tab", "cr", "lf", "esc", "ff", "del", "pct",
              "star", "u8", "cont", "xff", "paren", "gt", "slash", "colon", "lt", "at", "qm", "lbr", "rbr", "inj", "longu8", "longtok"}
-HostileDocs(n) == [kind : {"hostile"}, syn : {"meta-dq", "meta-sq", "meta-none", "pragma-dq", "pragma-inner-sq", "xml-dq", "xml-sq"},
+HostileDocs(n) == [kind : {"hostile"}, syn : {"meta-dq", "meta-sq", "meta-none", "pragma-dq", "pragma-inner-sq", "xml-dq", "xml-sq", "xml-none"},
                    lbl : SeqsUpTo(HClasses, n) \ {<<>>}, bom : {"none", "utf-8"}, lim : {"default", "cut-inside"}]
 Init == CASE Mode = "hostile2" -> d \in HostileDocs(2)
           [] Mode = "hostile3" -> d \in HostileDocs(3)
